@@ -1,7 +1,7 @@
 import logging
 import re
 from io import BytesIO
-from typing import Dict, List, Mapping, Optional, Sequence, Tuple, Union, cast
+from typing import Dict, FrozenSet, List, Mapping, Optional, Sequence, Tuple, Union, cast
 
 from pdfminer import settings
 from pdfminer.casting import safe_cmyk, safe_float, safe_int, safe_matrix, safe_rgb
@@ -394,6 +394,8 @@ class PDFPageInterpreter:
     def __init__(self, rsrcmgr: PDFResourceManager, device: PDFDevice) -> None:
         self.rsrcmgr = rsrcmgr
         self.device = device
+        # form XObjects being executed by the interpreters up the call chain
+        self.active_forms: FrozenSet[object] = frozenset()
 
     def dup(self) -> "PDFPageInterpreter":
         return self.__class__(self.rsrcmgr, self.device)
@@ -1262,7 +1264,15 @@ class PDFPageInterpreter:
         log.debug("Processing xobj: %r", xobj)
         subtype = xobj.get("Subtype")
         if subtype is LITERAL_FORM and "BBox" in xobj:
+            # A form that (directly or through other forms) invokes itself
+            # would never finish.
+            form_key = xobj.objid if xobj.objid is not None else id(xobj)
+            active_forms = self.active_forms
+            if form_key in active_forms:
+                log.warning("Ignoring recursive invocation of form XObject %r", xobjid)
+                return
             interpreter = self.dup()
+            interpreter.active_forms = active_forms | {form_key}
             bbox = cast(Optional[Rect], _numbers(xobj["BBox"], 4))
             if bbox is None:
                 log.warning("Ignoring form XObject %r with invalid BBox", xobjid)
